@@ -315,9 +315,23 @@ def run(ctx):
                     continue
                 sets = [y for y in walk(f) if y.get('kind') == 'BinaryOperator' and y.get('opcode') == '=' and
                         (peel(kids(y)[0]).get('referencedDecl') or {}).get('id') == did]
-                if sets and all(F.keys.key(kids(y)[1]) == 'n:1' and any(
-                        op == '==' and 'n:0' in (a, b) and (a + b).replace('n:0', '').endswith('.type_index')
-                        for (op, a, b) in (F.facts_at_ast(y) or ())) for y in sets):
+                def _sets_under_type0(y):
+                    # flag = true under  type_index == 0 ;  or  flag = flag || (type_index == 0)
+                    if F.keys.key(kids(y)[1]) == 'n:1' and any(
+                            op == '==' and 'n:0' in (a, b) and (a + b).replace('n:0', '').endswith('.type_index')
+                            for (op, a, b) in (F.facts_at_ast(y) or ())):
+                        return True
+                    r_ = peel(kids(y)[1])
+                    if r_ is not None and r_.get('kind') == 'BinaryOperator' and r_.get('opcode') == '||':
+                        l_, t_ = kids(r_)
+                        if (peel(l_).get('referencedDecl') or {}).get('id') == did:
+                            cases = F.bool_cases(t_)
+                            return all(any(op == '==' and 'n:0' in (a, b) and (a + b).replace('n:0', '').endswith('.type_index')
+                                           for (op, a, b) in fs_) for (fs_, v_) in cases if v_ is True) and any(v_ is True for (_, v_) in cases)
+                    return False
+                sets += [y for y in walk(f) if y.get('kind') == 'CompoundAssignOperator' and
+                         (peel(kids(y)[0]).get('referencedDecl') or {}).get('id') == did]
+                if sets and all(y.get('kind') == 'BinaryOperator' and _sets_under_type0(y) for y in sets):
                     good = True
             ctx.check(good, 'C01-default', 'another before-first type is chosen only when a transition uses type 0', x,
                       'the type for instants before the first transition is replaced although no transition was seen to '
